@@ -28,6 +28,7 @@ def check(repo, tier="quick"):
     res.rule("C16.e", "history independence: the functions through which the encoder decides level-constrained values keep no state between calls (no memo tables, caches or mutated module-level containers), so the decision for one configuration cannot be affected by an earlier one")
     res.rule("C16.c", "iter_sequence_headers filters the level table with the known values plus the candidate base format before iterating columns; the flags of extended transform parameters are decided against the table")
     res.rule("C16.g", "known values are constrained for every configuration that emits them: each store into the known-values dictionary of codec_features_to_trivial_level_constraints is unconditional or guarded by tests of codec_features['profile'] only (the encoder emits slice_bytes for every low-delay and slice_prefix_bytes for every high-quality configuration, lossless or not)")
+    res.rule("C16.h", "the level's data-unit ordering pattern is applied to everything emitted (C03.a re-evaluated): make_sequence hands the names of all picture data units (every fragment) to the ordering search together with the level's own pattern, and assembles exactly one data unit per symbol of the result")
     res.rule("C16.d", "the validator's keys are exactly the rows of level_constraints.csv")
 
     dk = enc_tables.decoder_level_keys(repo)
@@ -47,6 +48,15 @@ def check(repo, tier="quick"):
     rule_c(repo, res)
     rule_g(repo, res)
     res.floor("C16.g", 7)
+    # the ordering pattern of the level is applied to every data unit the encoder emits (C03.a re-evaluated)
+    from . import c03 as _c03
+    from ..report import Ob as _Ob, Result as _Res
+
+    _sub = _Res("C03")
+    _c03.rule_a(repo, _sub)
+    for _o in _sub.obs:
+        res._add(_Ob("C16.h", "%s/%s" % (_o.rule, _o.key), _o.where, _o.status, _o.detail, _o.by, _o.path))
+    res.floor("C16.h", 4)
     from .. import lints as _lints
 
     _lints.rule(repo, res, "C16.f", ['encoder.sequence_header', 'encoder.pictures', 'codec_features', 'level_constraints', 'constraint_table'])
@@ -183,6 +193,29 @@ def rule_b(repo, res):
                 pass
         missing = need - mem
         res.check(not missing and bool(need), "C16.b", "iter_color_spec_options:yield:%s" % short(v, 50), wherec, "the yielded ColorSpec carries values whose level membership is not tested first: %s" % sorted(missing), by="dominated by %s" % sorted(mem))
+    # every generator of the module: a literal given to a keyword that is a level-table key, anywhere inside a yielded
+    # value, is dominated by `<literal> in level_constraints_dict['<key>']`
+    csv_keys = set(enc_tables.level_csv_keys(repo))
+    sm = repo.mod(enc_tables.SH)
+    for gname, gfn in sorted(sm.funcs.items()):
+        ys = [n for n in ast.walk(gfn) if isinstance(n, ast.Yield) and n.value is not None]
+        for i, y in enumerate(ys):
+            mem = set()
+            for t in guards(y, gfn):
+                for c in ast.walk(t):
+                    if isinstance(c, ast.Compare) and len(c.ops) == 1 and isinstance(c.ops[0], ast.In) and isinstance(c.comparators[0], ast.Subscript) and const_str(c.comparators[0].slice):
+                        mem.add((norm(c.left), const_str(c.comparators[0].slice)))
+            need = set()
+            for c in ast.walk(y.value):
+                if isinstance(c, ast.Call):
+                    for k in c.keywords:
+                        if k.arg in csv_keys and isinstance(k.value, ast.Constant):
+                            need.add((norm(k.value), k.arg))
+            if not need:
+                continue
+            n_y += 1
+            missing = need - mem
+            res.check(not missing, "C16.b", "%s:yield%d:literal-level-values" % (gname, i + 1), "%s:%s" % (sm.rel, gname), "the yielded value fixes %s without first testing that the level column allows it (`<value> in level_constraints_dict[<key>]`): under a level that excludes the value the encoder emits a header the validator rejects" % sorted(missing), by="dominated by %s" % sorted(mem & need))
     res.info["yields_checked"] = n_y
 
 
